@@ -1,3 +1,4 @@
+import os
 from vlib import Obl, PORTFOLIO
 from props.ts_common import ts_obl
 
@@ -36,6 +37,10 @@ def obligations(tier):
                  desc='inside a segment, id -> time is within one tick and time -> id within one sample of the exact linear value (integer oracle), '
                       'for anchors of any magnitude up to 2^62 (where a double no longer holds the anchor exactly)',
                  bound='2 pairs, id/time deltas < 2^VBITS per rung label, |id0|,|t0| < 2^62'))
+    if tier != 'quick' or os.environ.get('C12_EXTRAP'):
+        o.append(Obl('O2_tmap_tick_accuracy_extrapolated', 'c12_tmap.c', units=['tmap.c'], defines=base + ['WITH_TICK=1', 'TICK_EXTRAP=1', 'NMAX=2', 'VBITS=6'], unwind=6, timeout=1500, backend=PORTFOLIO,
+                     desc='as O2_tmap_tick_accuracy, with the sample id up to 2^6 before the first / after the last of the two pairs: extrapolation from the nearest (only) segment is within one tick of the exact linear value',
+                     bound='2 pairs, id/time deltas < 2^6, extrapolation distance <= 2^6, |id0|,|t0| < 2^62'))
     for n, df in ([(27, 3)] if tier == 'quick' else [(5, 2), (7, 2), (8, 2), (10, 3), (27, 3)]):
         o.append(Obl('O1_utc_seek_D%d_N%d' % (df, n), 'c11_seek.c', units=['core.c', 'buffer.c'], seams={'core.c': ['jls_core_rd_chunk']},
                      defines=['JLS_VERIF_SIGNAL_COUNT=2', 'JLS_VERIF_SOURCE_COUNT=2', 'JLS_VERIF_FSR_BUFFER_U64=2', 'JLS_VERIF_BUF_DEFAULT_SIZE=128', 'JLS_VERIF_BUF_STRING_SIZE=16',
